@@ -22,9 +22,18 @@ def opMoments (j : Json) : D Json := do
   let mut d := d₀.mergeFast
   let mut rows : List (List Rat) := []
   let mut sizes : List Nat := []
+  let given : Option Cond ← match j.getObjVal? "given" with
+    | .ok c => do pure (some (← decCond c))
+    | .error _ => pure none
+  let mut masses : List Rat := []
   for i in List.range (nmax + 1) do
-    let vals ← monos.mapM (fun m => d.E m)
+    -- with "given": E(M · 1[given]) and P(given) instead of E(M)
+    let dsel ← match given with
+      | none => pure d
+      | some c => d.filterM (fun wp => evalCond wp.2.vals c)
+    let vals ← monos.mapM (fun m => dsel.E m)
     rows := rows ++ [vals]
+    masses := masses ++ [dsel.mass]
     sizes := sizes ++ [d.length]
     if i < nmax then
       if d.length > budget then break
@@ -34,7 +43,8 @@ def opMoments (j : Json) : D Json := do
   -- transpose: per monomial the list over n
   let perMono := (List.range monos.length).map (fun i => rows.map (fun r => r.getD i 0))
   pure (okJson [("values", Json.arr (perMono.map (fun l => Json.arr (l.map jsonRat).toArray)).toArray),
-                ("support", Json.arr (sizes.map (fun (k : Nat) => Json.num k)).toArray)])
+                ("support", Json.arr (sizes.map (fun (k : Nat) => Json.num k)).toArray),
+                ("mass", Json.arr (masses.map jsonRat).toArray)])
 
 /-- `dist`: the joint law of the listed variables after n iterations (all values must be constants) -/
 def opDist (j : Json) : D Json := do
